@@ -111,6 +111,8 @@ def in_quantifier(case):
 
 def parse_answer(ans):
     """runner 'parse' answer -> (n, left, [resp dict])"""
+    if not ans.startswith("n="):
+        raise RuntimeError("client parser runner failed: " + ans[:100])
     parts = ans.split(" | ")
     head = dict(t.split("=", 1) for t in parts[0].split(" "))
     out = []
